@@ -73,6 +73,7 @@ Section Run.
     j_allow : forall p, In p (pairs univ) -> allow_of (m_prev m) p = allow_obs s p;
     j_led : forall a, getd (m_led m) a = balance (tk s) a;
     j_lsup : m_sup m = supply (tk s);
+    j_extra : o_extra (m_prev m) = [] \/ o_extra (m_prev m) = extras c univ s;
     j_core : core_inv (tk s);
     j_supp : forall a, ~ In a univ -> balance (tk s) a = 0
   }.
@@ -93,7 +94,7 @@ Section Run.
     let '(s', out, evs) := step c s cl in
     exists m', c01_item univ m (cl, out, evs, observe c univ s') = (true, m') /\ J m' s'.
   Proof.
-    intros Jm Wc. destruct Jm as [J1 J2 J3 J4 J5 J6 J7].
+    intros Jm Wc. destruct Jm as [J1 J2 J3 J4 J5 JX J6 J7].
     assert (Wc' : forall a, In a (call_addrs cl) -> In a univ).
     { intros a Ha. rewrite forallb_forall in Wc. apply mem_In. apply Wc. exact Ha. }
     unfold step. destruct (exec c s cl) as [[[s1 v] evs]|] eqn:E.
@@ -134,6 +135,7 @@ Section Run.
         2:{ symmetry. apply forallb_univ. intros a Ha. apply Z.eqb_eq. rewrite bal_of_observe by auto. apply LED. }
         replace (snd (fold_left led_apply evs (m_led m, m_sup m)) =? o_supply (observe c univ s1)) with true.
         2:{ symmetry. apply Z.eqb_eq. cbn [o_supply observe]. apply (LED 0%N). }
+        rewrite (advance_keeps_extras_model c univ s cl s1 v evs (m_prev m) E JX).
         cbn. reflexivity.
       + constructor; cbn [m_prev m_led m_sup tk w_hist]; auto.
         * intros a Ha. apply bal_of_observe. exact Ha.
@@ -158,6 +160,7 @@ Section Run.
         2:{ symmetry. apply forallb_univ. intros a Ha. apply Z.eqb_eq. rewrite bal_of_observe by auto. apply J4. }
         replace (m_sup m =? o_supply (observe c univ s)) with true.
         2:{ symmetry. apply Z.eqb_eq. cbn [o_supply observe]. exact J5. }
+        rewrite advance_keeps_extras_fail.
         cbn. reflexivity.
       + constructor; cbn [m_prev m_led m_sup]; auto.
         * intros a Ha. apply bal_of_observe. exact Ha.
